@@ -688,6 +688,36 @@ mod api {
                 o.sample(json!({"keys": w, "list": list}));
             }
         }}}}
+        // old vowel-sign order with list suggestions on: after EVERY key the first candidate and the auxiliary text are the text
+        // composed so far (same keys in a context with list suggestions off), also when a key rewrites a sign in place (ে + া -> ো)
+        if shard == 0 {
+            for eng in [false, true] {
+                let cfgv = fixed_cfg(json!({"fixed_suggestion": true, "fixed_kar_order": true, "include_english": eng, "fixed_vowel": true}));
+                for w in ["dtp", "dtg", "dth", "etp", "dtwtp", "ftu", "dtpu", "tde", "twe", "dtpx"] {
+                    o.cases += 1;
+                    let mut s = Sess::new(cfgv.clone());
+                    let mut plain = Sess::new({ let mut c = cfgv.clone(); c["fixed_suggestion"] = json!(false); c });
+                    for c in w.chars() {
+                        let sg = s.key(c, 0);
+                        let comp = plain.key(c, 0);
+                        let comp_text = if comp.is_empty() { String::new() } else { comp.get_lonely_suggestion().to_string() };
+                        // a sign that is only waiting: nothing composed yet (the list-style answer then holds the empty text)
+                        if sg.is_empty() || comp.is_empty() { continue; }
+                        if sg.is_lonely() { o.fail(json!({"clause": "C15 list-style suggestion with suggestions on", "history": s.history()})); break; }
+                        let list = texts(&sg);
+                        if sg.get_auxiliary_text() != comp_text || list.first() != Some(&comp_text) {
+                            o.fail(json!({"clause": "C14 C15 C02 the first candidate and the auxiliary text are the text composed by this key (old vowel-sign order, list suggestions on)", "history": s.history(), "observed": {"auxiliary": sg.get_auxiliary_text(), "list": list}, "expected": comp_text}));
+                            break;
+                        }
+                        if eng && list.last().map(|x| x.as_str()) != Some(&w[..s.events.len()]) && comp_text != w[..s.events.len()] {
+                            o.fail(json!({"clause": "C15 raw key text is the last candidate (old vowel-sign order)", "history": s.history(), "observed": list}));
+                            break;
+                        }
+                    }
+                    o.nontrivial += 1;
+                }
+            }
+        }
         o.done()
     }
 
